@@ -172,11 +172,12 @@ def attribute(prop, bad):
         if op in ('rp_create', 'rp_update', 'rp_delete') and 'rp' in diff:
             return 'provider hierarchy differs from the specification after %s' % op
     elif prop == 'C10':
+        # only what C10 states: the magnitude of a generation is not demanded
         if mons('C10'):
             return 'monitor C10_Step'
-        if diff & {'rpgen', 'consgen'}:
-            return 'generations differ from the specification (%s)' % ','.join(sorted(diff))
     elif prop == 'C11':
+        # generations are opaque: how far one moved is C10's business
+        diff = diff - {'rpgen', 'consgen', 'bodygen'}
         if diff or 'TypeOK' in mon:
             return 'step is not a step of the specification: %s (expected %s %s)' % (
                 ','.join(sorted(diff | (mon & {'TypeOK'}))), exp, v['exp_code'])
